@@ -495,7 +495,7 @@ theorem c16_legacy_panic :
     (∀ segs r, bandwidthLegacy segs = .ok r → bandwidth segs = r) := by
   refine ⟨?_, bandwidthLegacy_error_iff, fun segs r h => bandwidthWith_ok h⟩
   intro s
-  simp [bandwidthLegacy, bandwidthWith, bwLoopWith, nsPerSec]
+  simp [bandwidthLegacy, bandwidthWith, bwLoopWith]
 
 /-- each guard alone is not enough: without the loop conjunct the F13 list still panics, without the
 final guard an all-zero window does -/
